@@ -10,7 +10,11 @@ proofs : lean/PyAbel/Props/C09.lean (Daun degree 0 and the onion-peeling weights
          lean/PyAbel/Props/C09Daun3.lean (Daun degree 3: the coded antiderivative P(R,a,b,c,d) is the integral of the cubic piece,
          p(j)[i] / q(j)[i] are for all i, j the integrals of the cubic Hermite value / derivative functions; the Thomas algorithm
          solves the (1, 4, 1) system, the system is symmetric, hence the final matrix applied to any samples is, at every pixel,
-         the Abel integral of the clamped cubic spline through them — `daun3_eq_abel_spline`, every size n ≥ 2)
+         the Abel integral of the clamped cubic spline through them — `daun3_eq_abel_spline`, every size n ≥ 2);
+         lean/PyAbel/Props/C09TwoPoint.lean, C09ThreePoint.lean (the two-point and three-point operators applied to any samples are, at
+         every pixel incl. the axis row with Dasch's special cases, the inverse Abel integral — in its line-of-sight form
+         −(1/π)∫₀^∞ P′(ρ)/ρ dt — of the piecewise-linear / local quadratic interpolant of the samples: J, I0, I1 are integrals of 1/ρ and
+         (ρ − j)/ρ over shells, the operators follow by first- / second-order summation by parts)
 K      : Lean matrices (onionW, twoPointD, threePointD, daun0, daun1, daun2, daun3 incl. the tridiagonal solve) vs the arrays
          the implementation builds;
          the Lean model of _bs_rbasex (driver op rbxbasis) vs rbasex._bs_rbasex, whole matrices, orders 0..8, Rmax up to 150
@@ -154,7 +158,7 @@ def oracle(ck, tier, deep):
                 if abs(P[R, r] - want) > 1e-9 * max(1.0, abs(want)):
                     ck.violation(dict(site="rbasex", clause="projection=abel-integral", order=nn), dict(Rmax=Rmax, order=order, odd=odd, n=nn, R=R, r=r),
                                  f"rbasex p_(R={R};n={nn})(r={r}) = {P[R, r]:.12g}, line-of-sight integral = {want:.12g}")
-    # ---------------- Dasch operators: inverse Abel integral of the local interpolant of the data, rows i >= 1
+    # ---------------- Dasch operators: inverse Abel integral of the local interpolant of the data, every row
     for n in ([9, 30] if not deep else [9, 30, 100]):
         P = rng.normal(size=n)
         # two-point: P piecewise linear on [j, j+1], zero slope beyond the last sample → f_i = -(1/π) Σ_j slope_j ∫ dy/√(y²-i²)
@@ -185,6 +189,24 @@ def oracle(ck, tier, deep):
             if abs(f3[i] - want3) > 1e-9 * max(1.0, np.abs(P).max()):
                 ck.violation(dict(site="three_point", clause="operator=inverse-abel-of-interpolant"), dict(n=n, i=i, P=P.tolist()),
                              f"three_point: (D P)[{i}] = {f3[i]:.12g}, inverse Abel integral of the local quadratic interpolant = {want3:.12g}")
+        # the axis row (i = 0): Dasch's special cases stand for the even parabola through P_0, P_1 near the axis (zero slope at r = 0),
+        # where P'(y)/y is the constant 2 (P_1 − P_0); beyond, the same interpolants as above with ∫ dy/y = log
+        # (two-point: theorem twoPoint_axis_eq_invAbel)
+        ck.count(("S.dasch", 2, 0), suite="S.dasch")
+        want2 = -(2 * (Pe[1] - Pe[0]) + sum((Pe[j + 1] - Pe[j]) * np.log((j + 1.0) / j) for j in range(1, n))) / np.pi
+        if abs(f2[0] - want2) > 1e-10 * max(1.0, np.abs(P).max()):
+            ck.violation(dict(site="two_point", clause="operator=inverse-abel-of-interpolant"), dict(n=n, i=0, P=P.tolist()),
+                         f"two_point: (D P)[0] = {f2[0]:.12g}, inverse Abel integral on the axis of the interpolant (parabola on [0,1), linear beyond) = {want2:.12g}")
+        ck.count(("S.dasch", 3, 0), suite="S.dasch")
+        want3 = Pe[1] - Pe[0]                      # ∫_0^{1/2} 2 (P_1 − P_0) dy
+        for j in range(1, n + 1):
+            a1 = (Pm(j + 1) - Pm(j - 1)) / 2
+            a2 = Pm(j + 1) - 2 * Pm(j) + Pm(j - 1)
+            want3 += (a1 - a2 * j) * np.log((j + 0.5) / (j - 0.5)) + a2
+        want3 = -want3 / np.pi
+        if abs(f3[0] - want3) > 1e-10 * max(1.0, np.abs(P).max()):
+            ck.violation(dict(site="three_point", clause="operator=inverse-abel-of-interpolant"), dict(n=n, i=0, P=P.tolist()),
+                         f"three_point: (D P)[0] = {f3[0]:.12g}, inverse Abel integral on the axis of the local quadratic interpolant = {want3:.12g}")
         # onion peeling: D = W^{-1} with W the shell projections (theorem) — D·W = 1 numerically
         Dop = quiet(dasch._bs_onion_peeling, n)
         W = np.array([[abel_quad(lambda r, j=j: 1.0 * ((r >= j - 0.5) & (r < j + 0.5)), float(i), j + 0.5, [j - 0.5]) for j in range(n)] for i in range(n)])
@@ -223,6 +245,27 @@ def oracle(ck, tier, deep):
                         ck.violation(dict(site=m2, clause="get_bs_cached=generator"), dict(first=[m1, n1], then=[m2, n2], basis_dir=use_dir),
                                      f"dasch.get_bs_cached({m2!r}, {n2}) after ({m1!r}, {n1}) is not the {m2} operator "
                                      f"(off by {np.abs(got - want).max() if got.shape == want.shape else 'shape'})")
+    dasch.cache_cleanup()
+    # … longer sessions: one method's operator read back from its file between two requests for another (generated) method, smaller
+    # sizes after larger ones — whatever is handed out is the generator's array for the method and size asked for
+    import itertools as _it
+    for X, Y in _it.permutations(list(gens), 2):
+        d = tempfile.mkdtemp(prefix="c09_", dir=scratch)
+        dasch.cache_cleanup()
+        ck.count(("S.cached", "dasch-session", X, Y), suite="S.get_bs_cached")
+        steps = [(Y, 25), (X, 17), (Y, 25), (X, 9), (Y, 12), (X, 17)]
+        for k, (m, n) in enumerate(steps):
+            try:
+                got = np.array(quiet(dasch.get_bs_cached, m, n, basis_dir=d))
+                want = quiet(gens[m], n)
+            except Exception as e:
+                ck.violation(dict(site=m, clause="exception"), dict(session=[list(t) for t in steps], at=k), f"{type(e).__name__}: {e}")
+                break
+            if got.shape != want.shape or np.abs(got - want).max() > 1e-12 * max(1.0, np.abs(want).max()):
+                ck.violation(dict(site=m, clause="get_bs_cached=generator"), dict(session=[list(t) for t in steps], at=k, basis_dir=True),
+                             f"dasch.get_bs_cached({m!r}, {n}) as request #{k} of the session {steps} (with a basis directory) is not the {m} operator "
+                             f"(off by {np.abs(got - want).max() if got.shape == want.shape else 'shape'})")
+                break
     dasch.cache_cleanup()
     for deg in (0, 1, 2, 3):
         for (n1, n2) in ((12, 8), (8, 12), (12, 12)):
@@ -357,11 +400,13 @@ def run(tier):
                               "quadrature-backed only: daun 3, basex (series with ±9(u+2) cut-off), two/three-point (rows i ≥ 1; "
                               "the axis row uses the documented special cases and is compared with the model only)",
                               "scipy.integrate.quad (1e-12) and scipy CubicSpline for the degree-3 interpolant"]
-    ck.cov["unproved_clauses"] = ["basex, two-point, three-point = their integrals (measured by quadrature); daun degree 3: scipy.linalg.solve_banded is modelled by the Thomas algorithm (proved to solve the system; tied to the code by the entrywise comparison)"]
+    ck.cov["unproved_clauses"] = ["basex = its integrals (measured by quadrature; the ±9(u+2) cut-off of the series); two-/three-point: the inverse Abel integral is taken in its line-of-sight form (the substitution x = √(r²+t²) from the textbook form is not formalised); daun degree 3: scipy.linalg.solve_banded is modelled by the Thomas algorithm (proved to solve the system; tied to the code by the entrywise comparison)"]
     ck.cov["source_fingerprint"] = source_fingerprint(["abel/basex.py", "abel/daun.py", "abel/rbasex.py", "abel/dasch.py"])
     ck.proofs("PyAbel.Props.C09")
     ck.proofs("PyAbel.Props.C09Rbasex")
     ck.proofs("PyAbel.Props.C09Daun3")
+    ck.proofs("PyAbel.Props.C09TwoPoint")
+    ck.proofs("PyAbel.Props.C09ThreePoint")
     ok, log = ensure_driver()
     if ok:
         corr_operators(ck, tier)
